@@ -1543,9 +1543,19 @@ def rule_chain_from_built(P):
                 R.functions.add(f["inst"])
                 lvs = made[_nz(r.ev["args"][0])]
                 iid = "%s: %s(%s, %s, …) after createReducedNode(%s built at %s)" % (base_name(f["q"]).replace(M, "")[:48], c.ev["q"].split("::")[-1], pv, K, _nz(r.ev["args"][0]), "/".join(sorted(lvs)))
-                # also accepted: K is a local defined as F->getNodeLevel(p) of this very node, i.e. its actual level
-                actual = any(d.kind == "ldef" and d.ev["var"] == K and re.fullmatch(r"\w+->getNodeLevel\(%s\)" % re.escape(pv), _nz(d.ev.get("rhs") or "")) for d in g.nodes) if re.fullmatch(r"\w+", K) else False
-                if K in lvs or actual:
+                # K may reach the call through plain aliases (`const int from = Clevel;`): follow single-definition copies
+                K0 = K
+                for _ in range(4):
+                    ds = [_nz(d.ev.get("rhs") or "") for d in g.nodes if d.kind == "ldef" and d.ev["var"] == K0] if re.fullmatch(r"\w+", K0) else []
+                    if len(ds) == 1 and re.fullmatch(r"\w+", ds[0]) and ds[0] not in lvs:
+                        K0 = ds[0]
+                    else:
+                        break
+                # also accepted: the level is a local defined as F->getNodeLevel(p) of this very node, i.e. its actual level
+                actual = any(d.kind == "ldef" and d.ev["var"] == K0 and re.fullmatch(r"\w+->getNodeLevel\(%s\)" % re.escape(pv), _nz(d.ev.get("rhs") or "")) for d in g.nodes) if re.fullmatch(r"\w+", K0) else False
+                ds = [_nz(d.ev.get("rhs") or "") for d in g.nodes if d.kind == "ldef" and d.ev["var"] == K0] if re.fullmatch(r"\w+", K0) else []
+                alias = K0 in lvs or (bool(ds) and all(x in lvs for x in ds))
+                if K in lvs or actual or alias:
                     R.ok(iid, where(f, c.line), **({"by": "actual level of the node"} if actual and K not in lvs else {}))
                 else:
                     R.fail(iid, where(f, c.line), Finding(R.rule, f["file"], base_name(f["q"]), "chain-from:" + c.ev["q"].split("::")[-1],
